@@ -10,4 +10,5 @@ rsync -a --exclude .git /repo/ "$tmp/repo/"
 ( cd "$tmp/repo" && patch -p1 -s < "$patch" ) || { echo "PATCH-FAILED"; exit 3; }
 /verif/bin/gvc check --prop "$prop" --repo "$tmp/repo" --no-evidence --verif "$tmp/verifout" --known /verif/known_findings.jsonl "$@"
 rc=$?
+if [ -n "${MUT_KEEP:-}" ] && [ -d "$tmp/verifout/replays" ]; then mkdir -p "$MUT_KEEP"; rm -rf "$MUT_KEEP/$(basename "$patch" .patch)-$prop"; cp -r "$tmp/verifout/replays" "$MUT_KEEP/$(basename "$patch" .patch)-$prop"; fi
 exit $rc
